@@ -23,6 +23,14 @@ PRELUDES = [
      ["find", 1, 2, ["name", "a"]], ["find", 1, None, ["all"]],
      ["set_link", 4, "RMetadata", None], ["referring", 8, "CSources"], ["reopen", False],
      ["lookup", 0, "CSections", ["name", "m"]], ["referring", 1, "CSources"]],
+    # two sources of one NAME in different subtrees; an array, a tag and a multi-tag list only the first: the namesake
+    # has no referring entities
+    [["create", 0, "CBlocks", "B", "t", []], ["create", 1, "CSources", "subject A", "t", []], ["create", 1, "CSources", "subject B", "t", []],
+     ["create", 2, "CSources", "electrode", "t", []], ["create", 3, "CSources", "electrode", "t", []],
+     ["create", 1, "CDataArrays", "a", "t", [1]], ["create", 1, "CTags", "t", "t", [1]], ["create_mtag", 1, "m", "t", 6],
+     ["append", 6, "LSources", 4], ["append", 7, "LSources", 4], ["append", 8, "LSources", 4],
+     ["referring", 5, "CDataArrays"], ["referring", 5, "CTags"], ["referring", 5, "CMultiTags"],
+     ["referring", 4, "CDataArrays"], ["referring", 4, "CTags"], ["referring", 4, "CMultiTags"]],
     # one section WITHOUT properties as the metadata of an entity of every kind; the referring lists asked while it is
     # empty and again after it got a property
     [["create", 0, "CBlocks", "B", "t", []], ["create", 0, "CSections", "s", "t", []], ["create", 1, "CGroups", "g", "t", []],
